@@ -99,10 +99,6 @@ inductive Event (β : Type) where
   | error
 deriving Repr
 
-def Emit.isFinished {β} : Emit β → Bool
-  | .finished => true
-  | _ => false
-
 /-- decoder = control state + `PushBuffers` + "is `ParquetDecoderState::Finished`" -/
 structure Dec (σ : Type) where
   ctl : σ
